@@ -141,14 +141,15 @@ type Trace struct {
 // Keyper is one keyper: a database that lives as long as the run, and a process incarnation (pool,
 // ShuttermintState, message sender) that is replaced on restart.
 type Keyper struct {
-	Index    int
-	Key      *ecdsa.PrivateKey // signs shuttermint transactions
-	Address  common.Address
-	EncKey   *ecdsa.PrivateKey // ECIES key announced in the check-in
-	ValKey   ed25519.PrivateKey
-	Config   *kprconfig.Config
-	Srv      *pgfake.Server
-	Strategy *Strategy // nil: honest
+	Index         int
+	Key           *ecdsa.PrivateKey // signs shuttermint transactions
+	Address       common.Address
+	EncKey        *ecdsa.PrivateKey // ECIES key announced in the check-in
+	ValKey        ed25519.PrivateKey
+	Config        *kprconfig.Config
+	Srv           *pgfake.Server
+	Strategy      *Strategy // nil: honest
+	stashedCommit []outMsg  // EvalFirst: commitment waiting for the evaluations
 
 	rig *Rig
 
@@ -443,6 +444,10 @@ func (s *Sender) SendMessage(ctx context.Context, msg *shmsg.Message) error {
 	for _, o := range outs {
 		if o.hold {
 			k.rig.hold(k, o.msg)
+			continue
+		}
+		if o.edge {
+			k.rig.holdEdge(k, o.msg)
 			continue
 		}
 		n := k.sendCounter
